@@ -1,2 +1,596 @@
+import RsomeV.M.Dro
+import RsomeV.L.DroSound
+import Mathlib.Tactic.Linarith
+import Mathlib.Tactic.Ring
+import Mathlib.Tactic.NormNum
+
+/-! C03 — soundness of the event-wise DRO reformulation (`dro.Model.dro_to_roc`, rsome/dro.py).
+
+For a constraint `sup_{P ∈ F} E_P[f(x, z̃)] ≤ 0` over an event-wise ambiguity set `F`
+(scenario probabilities `p ∈ 𝒫`, supports `Z_s`, conditional-mean sets `E[z̃ | s̃ ∈ E_k] ∈ 𝒬_k`)
+the code introduces multipliers `α_s`, `β_k` and emits
+
+* (H1, *first-stage row*)  `Σ_s α_s p_s + Σ_k β_k·μ_k ≤ 0` for all `(p, μ)` in the **lifted support**
+  `Ambiguity.mix_support` — compiled with `le_to_rc` over the conic dual of that support;
+* (H2, *scenario rows*)    `f(x, z) ≤ α_s + Σ_{k : s ∈ E_k} β_k·z` for all `z ∈ Z_s` — compiled with
+  `forall(sup_constr[s])` (covered by C01).
+
+Contents:
+1. `mixSupport_lift`     every admissible `(p, conditional means)` is a point of the model
+                         `Dro.mixSupport` of `mix_support` (order-faithful, differential-tested);
+2. `dro_sound`           (H1) ∧ (H2) ⇒ `Σ_s p_s·E_s[f_s] ≤ 0`, for abstract conditional expectation
+                         operators (`CondExp`; finitely supported distributions are an instance);
+3. `dro_sound_compiled`  feasibility of the compiled first-stage row ⇒ (H1) at every admissible
+                         `(p, μ)`; `dro_sound_end_to_end` chains 1–3.
+
+Faithfulness notes on `mix_support` (see `RsomeV/M/Dro.lean`): exponential cones of the
+*expectation* programs are not forwarded by the code (the mixed support is a relaxation of the
+intended set: conservative, still sound — `mixSupport_lift` needs feasibility of the expectation
+programs only with exponential cones ignored); exponential cones of the probability program are
+not re-indexed but re-created on three fresh auxiliary columns with copy rows. -/
+
+set_option linter.unusedSectionVars false
+set_option linter.unusedSimpArgs false
+set_option linter.unusedVariables false
+
 namespace RsomeV.C03
+open Finset RsomeV ConeProg RoRows Dro
+
+variable {K : Type} [Field K] [LinearOrder K] [IsStrictOrderedRing K]
+
+/-! ### 1. Lifting -/
+
+/-- **Every admissible (probabilities, conditional means) pair is a point of the lifted support.**
+
+`pro` is the probability program (`pro_model.do_math(obj=False)`), `exps` the list of
+(expectation program, scenario indices of the event).  If `π` is feasible for `pro` and, for every
+event `k`, `ν k` is feasible for the `k`-th expectation program *with exponential cones ignored*
+(the code does not forward them), and the event probabilities `t_k = Σ_{s ∈ E_k} π_s` are
+non-negative, then
+`liftPoint pro exps π ν = [ π | t_1·ν_1 | t_2·ν_2 | … | copies π[e[t]] for the exp cones of pro ]`
+is feasible for `mixSupport pro exps`.
+
+Well-formedness hypotheses (true of every program `do_math` emits, re-checked on the generated
+cases): cone index lists in range (`hqp`, `hxl`, `hxp`, `hqe`) and event indices are columns of
+`pro` (`hidx`).  The bounds `ub/lb` of the sub-programs are ignored by the code, hence by the
+model; the theorem therefore needs nothing about them (`Feas` of the inputs includes them, which
+only makes the hypothesis stronger). -/
+theorem mixSupport_lift (pro : ConeProg K) (exps : List (ConeProg K × List ℕ))
+    (E : K → K → K → Prop) (π : ℕ → K) (ν : ℕ → ℕ → K)
+    (hqp : ∀ q ∈ pro.qmat, ∀ j ∈ q, j < pro.lp.nc)
+    (hxl : ∀ e ∈ pro.xmat, e.length = 3) (hxp : ∀ e ∈ pro.xmat, ∀ j ∈ e, j < pro.lp.nc)
+    (hqe : ∀ k < exps.length, ∀ q ∈ (blk exps k).qmat, ∀ j ∈ q, j < (blk exps k).lp.nc)
+    (hidx : ∀ k < exps.length, ∀ s ∈ idx exps k, s < pro.lp.nc)
+    (hπ : pro.Feas E π)
+    (hν : ∀ k < exps.length, (blk exps k).Feas (fun _ _ _ => True) (ν k))
+    (ht : ∀ k < exps.length, 0 ≤ evProb exps k π) :
+    (mixSupport pro exps).Feas E (liftPoint pro exps π ν) :=
+  lift_feas pro exps π ν E hqp hxl hxp hqe hidx hπ hν ht
+
+/-- the coordinates of the lifted point: probabilities … -/
+theorem liftPoint_prob (pro : ConeProg K) (exps : List (ConeProg K × List ℕ)) (π : ℕ → K)
+    (ν : ℕ → ℕ → K) (s : ℕ) (hs : s < pro.lp.nc) : liftPoint pro exps π ν s = π s :=
+  liftPoint_pro pro exps π ν s hs
+
+/-- … and scaled means `μ_k = t_k·ν_k` at the columns of block `k` -/
+theorem liftPoint_mean (pro : ConeProg K) (exps : List (ConeProg K × List ℕ)) (π : ℕ → K)
+    (ν : ℕ → ℕ → K) (k : ℕ) (hk : k < exps.length) (j : ℕ) (hj : j < (blk exps k).lp.nc) :
+    liftPoint pro exps π ν (colOff pro exps k + j) = evProb exps k π * ν k j :=
+  liftPoint_blk pro exps π ν k hk j hj
+
+/-! ### 2. The abstract soundness argument -/
+
+/-- **Soundness of the event-wise reformulation** (no measure theory; any ordered field).
+
+`S` scenarios with supports `Z s`, integrands `f s`, `nE` events `Ev k` (sets of scenarios), `nz`
+random components.  `Es s` is a conditional expectation operator on `Z s` (`CondExp`: additive,
+homogeneous, monotone on `Z s`, normalised) — integration of `g(z̃)` given scenario `s`.
+* (H2) scenario rows: on `Z s`, `f s z ≤ α s + Σ_{k : Ev k s} Σ_j β k j · z j`;
+* (H1) first-stage row at the probabilities `p ≥ 0` and the scaled means
+  `μ k j = Σ_{s : Ev k s} p s · E_s[z_j]`:  `Σ_s α s · p s + Σ_k Σ_j β k j · μ k j ≤ 0`.
+Then the expected integrand `Σ_s p s · E_s[f s]` is non-positive.  (For an `E(...) <= 0` constraint
+`f s` is the constraint function under the scenario's recourse; for the objective the epigraph
+variable is folded into `f`.) -/
+theorem dro_sound (S nE nz : ℕ) (Z : ℕ → (ℕ → K) → Prop) (Es : ℕ → ((ℕ → K) → K) → K)
+    (hEs : ∀ s < S, CondExp (Z s) (Es s))
+    (f : ℕ → (ℕ → K) → K) (α : ℕ → K) (β : ℕ → ℕ → K)
+    (Ev : ℕ → ℕ → Prop) [∀ k s, Decidable (Ev k s)]
+    (p : ℕ → K) (hp : ∀ s < S, 0 ≤ p s)
+    (H2 : ∀ s < S, ∀ z, Z s z →
+      f s z ≤ α s + ∑ k ∈ range nE, if Ev k s then ∑ j ∈ range nz, β k j * z j else 0)
+    (H1 : ∑ s ∈ range S, α s * p s
+        + ∑ k ∈ range nE, ∑ j ∈ range nz,
+            β k j * (∑ s ∈ range S, if Ev k s then p s * Es s (fun z => z j) else 0) ≤ 0) :
+    ∑ s ∈ range S, p s * Es s (f s) ≤ 0 :=
+  dro_sound_core S nE nz Z Es hEs f α β Ev p hp H2 H1
+
+/-- **Non-vacuity of `CondExp`**: a finitely supported distribution on `Z` (atoms `pt i ∈ Z`,
+weights `w i ≥ 0` summing to one) is a conditional expectation operator. -/
+theorem finExp_isCondExp (Z : (ℕ → K) → Prop) (n : ℕ) (w : ℕ → K) (pt : ℕ → ℕ → K)
+    (hw : ∀ i < n, 0 ≤ w i) (hsum : ∑ i ∈ range n, w i = 1) (hZ : ∀ i < n, Z (pt i)) :
+    CondExp Z (finExp n w pt) :=
+  finExp_condExp Z n w pt hw hsum hZ
+
+/-! ### 3. The compiled first-stage row -/
+
+/-- **(H1) from the compiled rows.**  Let `Pz = mixSupport pro exps`.  The first-stage row of
+`dro_to_roc` is `droRow pro exps S nz nd acol bcol` (one uncertain row over the `colEnd` columns of
+the mixed support: the decision column `acol s` multiplies `p_s`, `s < S`; the decision column
+`bcol k j` multiplies column `j < nz` of block `k`).  If `v` (decisions and multipliers) is
+feasible for the `le_to_rc` fragment of that row over `Pz.coneDual`, then at every admissible
+`(π, ν)` (as in `mixSupport_lift`)
+`Σ_s v(acol s)·π_s + Σ_k Σ_j v(bcol k j)·(t_k·ν_{k,j}) ≤ 0`, i.e. (H1) with `α_s = v (acol s)`,
+`β_{k,j} = v (bcol k j)`, `p = π`, `μ_k = t_k ν_k`.
+
+Hypotheses of `rc_sound` made explicit:
+* well-formedness of the inputs (`hst`, `hqp`, `hxl`, `hxp`, `hqe`, `hidx`) — they give `Pz.WF`;
+* `hE` the pairing property of the exponential cone (holds for the real cone, `L/ExpCone.lean`);
+* `hlay : Pz.rowsRemoved = false` — the conic dual of the mixed support does not take the compact
+  second-order-cone layout.  `C01.rc_sound` asks that cone columns lie behind all
+  coefficient-carrying columns, which is false for mixed supports (the cones of the probability
+  block precede the expectation blocks); `rc_sound_gen` needs that only in the compact layout.
+  In the compact layout `le_to_rc` would pair multipliers with the wrong dual rows; the layout
+  is never compact for mixed supports built through the public API (norm atoms put their head
+  column in two rows) — the differential test reports `rows_removed = 0` on all cases;
+* the shape of the row: `hS`, `hnz`, `hacol`, `hbcol`. -/
+theorem dro_sound_compiled (pro : ConeProg K) (exps : List (ConeProg K × List ℕ))
+    (E : K → K → K → Prop) (hE : ExpPair E)
+    (hst : ∀ i j, pro.lp.a i j ≠ 0 → pro.st i j = true)
+    (hqp : ∀ q ∈ pro.qmat, ∀ j ∈ q, j < pro.lp.nc)
+    (hxl : ∀ e ∈ pro.xmat, e.length = 3) (hxp : ∀ e ∈ pro.xmat, ∀ j ∈ e, j < pro.lp.nc)
+    (hqe : ∀ k < exps.length, ∀ q ∈ (blk exps k).qmat, ∀ j ∈ q, j < (blk exps k).lp.nc)
+    (hidx : ∀ k < exps.length, ∀ s ∈ idx exps k, s < pro.lp.nc)
+    (hlay : (mixSupport pro exps).rowsRemoved = false)
+    (S nz nd : ℕ) (acol : ℕ → ℕ) (bcol : ℕ → ℕ → ℕ)
+    (hS : S ≤ pro.lp.nc) (hnz : ∀ k < exps.length, nz ≤ (blk exps k).lp.nc)
+    (hacol : ∀ s < S, acol s < nd) (hbcol : ∀ k < exps.length, ∀ j < nz, bcol k j < nd)
+    (v : ℕ → K)
+    (hv : ((droRow pro exps S nz nd acol bcol).leToRc (mixSupport pro exps).coneDual).prog.Feas E v)
+    (π : ℕ → K) (ν : ℕ → ℕ → K) (hπ : pro.Feas E π)
+    (hν : ∀ k < exps.length, (blk exps k).Feas (fun _ _ _ => True) (ν k))
+    (ht : ∀ k < exps.length, 0 ≤ evProb exps k π) :
+    ∑ s ∈ range S, v (acol s) * π s
+      + ∑ k ∈ range exps.length, ∑ j ∈ range nz, v (bcol k j) * (evProb exps k π * ν k j) ≤ 0 := by
+  have hwf := mix_wf pro exps hst hqp hqe
+  have hζ := mixSupport_lift pro exps E π ν hqp hxl hxp hqe hidx hπ hν ht
+  have hrc := rc_sound_gen (mixSupport pro exps) E hE hwf (fun _ => rfl)
+    (droRow pro exps S nz nd acol bcol)
+    (by show colEnd pro exps ≤ colEnd pro exps + 3 * pro.xmat.length; omega)
+    (by intro h; rw [hlay] at h; cases h)
+    (fun _ => mix_xq_disjoint pro exps hqp hqe) v hv 0 (by show 0 < 1; omega)
+    (liftPoint pro exps π ν) hζ
+  rw [droRow_eval pro exps S nz nd acol bcol hS hnz hacol hbcol] at hrc
+  have e1 : ∑ s ∈ range S, v (acol s) * liftPoint pro exps π ν s
+      = ∑ s ∈ range S, v (acol s) * π s := by
+    apply Finset.sum_congr rfl; intro s hs
+    rw [liftPoint_pro pro exps π ν s (lt_of_lt_of_le (Finset.mem_range.mp hs) hS)]
+  have e2 : ∑ k ∈ range exps.length, ∑ j ∈ range nz,
+        v (bcol k j) * liftPoint pro exps π ν (colOff pro exps k + j)
+      = ∑ k ∈ range exps.length, ∑ j ∈ range nz, v (bcol k j) * (evProb exps k π * ν k j) := by
+    apply Finset.sum_congr rfl; intro k hk
+    apply Finset.sum_congr rfl; intro j hj
+    have hk' := Finset.mem_range.mp hk
+    rw [liftPoint_blk pro exps π ν k hk' j (lt_of_lt_of_le (Finset.mem_range.mp hj) (hnz k hk'))]
+  rw [e1, e2] at hrc
+  exact hrc
+
+/-- **End to end**: the compiled first-stage row (feasible at `v`), the scenario rows (H2) with
+the multipliers read off `v`, and an admissible distribution — scenario probabilities `π` feasible
+for the probability program, conditional expectation operators `Es s` on the supports, and for
+every event `k` a point `ν k` of the `k`-th expectation program whose first `nz` coordinates are
+the conditional mean given the event (`hμ`: `t_k·ν_{k,j} = Σ_{s ∈ E_k} π_s·E_s[z_j]`) — give
+`Σ_s π_s·E_s[f_s] ≤ 0`.  Events are `Ev k s := s ∈ idx exps k`. -/
+theorem dro_sound_end_to_end (pro : ConeProg K) (exps : List (ConeProg K × List ℕ))
+    (E : K → K → K → Prop) (hE : ExpPair E)
+    (hst : ∀ i j, pro.lp.a i j ≠ 0 → pro.st i j = true)
+    (hqp : ∀ q ∈ pro.qmat, ∀ j ∈ q, j < pro.lp.nc)
+    (hxl : ∀ e ∈ pro.xmat, e.length = 3) (hxp : ∀ e ∈ pro.xmat, ∀ j ∈ e, j < pro.lp.nc)
+    (hqe : ∀ k < exps.length, ∀ q ∈ (blk exps k).qmat, ∀ j ∈ q, j < (blk exps k).lp.nc)
+    (hidx : ∀ k < exps.length, ∀ s ∈ idx exps k, s < pro.lp.nc)
+    (hlay : (mixSupport pro exps).rowsRemoved = false)
+    (S nz nd : ℕ) (acol : ℕ → ℕ) (bcol : ℕ → ℕ → ℕ)
+    (hS : S ≤ pro.lp.nc) (hnz : ∀ k < exps.length, nz ≤ (blk exps k).lp.nc)
+    (hacol : ∀ s < S, acol s < nd) (hbcol : ∀ k < exps.length, ∀ j < nz, bcol k j < nd)
+    (v : ℕ → K)
+    (hv : ((droRow pro exps S nz nd acol bcol).leToRc (mixSupport pro exps).coneDual).prog.Feas E v)
+    -- the distribution
+    (π : ℕ → K) (hπ : pro.Feas E π) (hπ0 : ∀ s < S, 0 ≤ π s)
+    (Z : ℕ → (ℕ → K) → Prop) (Es : ℕ → ((ℕ → K) → K) → K)
+    (hEs : ∀ s < S, CondExp (Z s) (Es s))
+    (ν : ℕ → ℕ → K) (hν : ∀ k < exps.length, (blk exps k).Feas (fun _ _ _ => True) (ν k))
+    (ht : ∀ k < exps.length, 0 ≤ evProb exps k π)
+    (hμ : ∀ k < exps.length, ∀ j < nz, evProb exps k π * ν k j
+        = ∑ s ∈ range S, if s ∈ idx exps k then π s * Es s (fun z => z j) else 0)
+    -- the scenario rows
+    (f : ℕ → (ℕ → K) → K)
+    (H2 : ∀ s < S, ∀ z, Z s z →
+      f s z ≤ v (acol s) + ∑ k ∈ range exps.length,
+        if s ∈ idx exps k then ∑ j ∈ range nz, v (bcol k j) * z j else 0) :
+    ∑ s ∈ range S, π s * Es s (f s) ≤ 0 := by
+  have h1 := dro_sound_compiled pro exps E hE hst hqp hxl hxp hqe hidx hlay S nz nd acol bcol
+    hS hnz hacol hbcol v hv π ν hπ hν ht
+  apply dro_sound S exps.length nz Z Es hEs f (fun s => v (acol s)) (fun k j => v (bcol k j))
+    (fun k s => s ∈ idx exps k) π hπ0 H2
+  have e : ∑ k ∈ range exps.length, ∑ j ∈ range nz, v (bcol k j) * (evProb exps k π * ν k j)
+      = ∑ k ∈ range exps.length, ∑ j ∈ range nz, v (bcol k j) *
+          (∑ s ∈ range S, if s ∈ idx exps k then π s * Es s (fun z => z j) else 0) := by
+    apply Finset.sum_congr rfl; intro k hk
+    apply Finset.sum_congr rfl; intro j hj
+    rw [hμ k (Finset.mem_range.mp hk) j (Finset.mem_range.mp hj)]
+  rw [e] at h1
+  exact h1
+
+
+/-! ### Examples -/
+
+/-! #### `mixSupport_lift`: two scenarios, a norm-ball expectation set on the whole sample space
+and a lower bound on the event `{1}` -/
+
+/-- probability program of `p ≥ 0, p_0 + p_1 = 1` (rows `-p_0 ≤ 0`, `-p_1 ≤ 0`, `p_0 + p_1 = 1`) -/
+def exPro2 : ConeProg ℚ :=
+  { lp := { nr := 3, nc := 2
+            a := fun i j => if i = 2 then 1 else if i = j then -1 else 0
+            b := fun i => if i = 2 then 1 else 0
+            eq := fun i => decide (i = 2)
+            ub := fun _ => none, lb := fun _ => none, c := fun _ => 1 }
+    st := fun i j => decide (i = 2 ∨ i = j), qmat := [], xmat := [] }
+
+/-- expectation program of `norm(E(z), 2) <= 1` for one random component: columns
+`[z, left, right]`, rows `z - left = 0`, `right ≤ 1`, `-right ≤ 0`, cone `[right, left]` -/
+def exBall : ConeProg ℚ :=
+  { lp := { nr := 3, nc := 3
+            a := fun i j => if i = 0 then (if j = 0 then 1 else if j = 1 then -1 else 0)
+                            else if i = 1 then (if j = 2 then 1 else 0)
+                            else (if j = 2 then -1 else 0)
+            b := fun i => if i = 1 then 1 else 0
+            eq := fun i => decide (i = 0)
+            ub := fun _ => none, lb := fun _ => none, c := fun _ => 1 }
+    st := fun _ _ => true, qmat := [[2, 1]], xmat := [] }
+
+/-- expectation program of `E(z) >= 1/2`: one column, row `-z ≤ -1/2` -/
+def exLow : ConeProg ℚ :=
+  { lp := { nr := 1, nc := 1, a := fun _ _ => -1, b := fun _ => -1/2, eq := fun _ => false
+            ub := fun _ => none, lb := fun _ => none, c := fun _ => 1 }
+    st := fun _ _ => true, qmat := [], xmat := [] }
+
+def exExps2 : List (ConeProg ℚ × List ℕ) := [(exBall, [0, 1]), (exLow, [1])]
+
+/-- `π = (1/4, 3/4)`; conditional means `ν_0 = (1/2; lifting 1/2, 1)`, `ν_1 = (2/3)` -/
+def exPi : ℕ → ℚ := fun s => if s = 0 then 1/4 else 3/4
+def exNu : ℕ → ℕ → ℚ := fun k j => if k = 0 then (if j = 2 then 1 else 1/2) else 2/3
+
+/-- shape of the mixed support: `2 + 3 + 1` columns, `3 + 3 + 1` rows, the cone of block 0 shifted
+by the block offset `2` -/
+example : (mixSupport exPro2 exExps2).lp.nc = 6 ∧ (mixSupport exPro2 exExps2).lp.nr = 7 ∧
+    (mixSupport exPro2 exExps2).qmat = [[4, 3]] ∧ (mixSupport exPro2 exExps2).xmat = [] := by
+  decide
+
+/-- the lifted point `[1/4, 3/4 | 1·(1/2, 1/2, 1) | 3/4·(2/3)]` is feasible for the mixed support -/
+example : (mixSupport exPro2 exExps2).Feas (fun _ _ _ => False) (liftPoint exPro2 exExps2 exPi exNu) := by
+  apply mixSupport_lift
+  · intro q hq; simp [exPro2] at hq
+  · intro e he; simp [exPro2] at he
+  · intro e he; simp [exPro2] at he
+  · intro k hk q hq j hj
+    have : k = 0 ∨ k = 1 := by simp [exExps2] at hk; omega
+    rcases this with rfl | rfl
+    · have : q = [2, 1] := by simpa [blk, exExps2, exBall] using hq
+      subst this
+      have : j = 2 ∨ j = 1 := by simpa using hj
+      show j < 3
+      omega
+    · simp [blk, exExps2, exLow] at hq
+  · intro k hk s hs
+    have : k = 0 ∨ k = 1 := by simp [exExps2] at hk; omega
+    show s < 2
+    rcases this with rfl | rfl
+    · have : s = 0 ∨ s = 1 := by simpa [idx, exExps2] using hs
+      omega
+    · have : s = 1 := by simpa [idx, exExps2] using hs
+      omega
+  · refine ⟨⟨?_, fun _ _ => trivial, fun _ _ => trivial⟩, ?_, ?_⟩
+    · intro i hi
+      have hi' : i < 3 := hi
+      have : i = 0 ∨ i = 1 ∨ i = 2 := by omega
+      rcases this with rfl | rfl | rfl <;>
+        norm_num [LinProg.row, exPro2, exPi, Finset.sum_range_succ]
+    · intro q hq; simp [exPro2] at hq
+    · intro e he; simp [exPro2] at he
+  · intro k hk
+    have : k = 0 ∨ k = 1 := by simp [exExps2] at hk; omega
+    rcases this with rfl | rfl
+    · refine ⟨⟨?_, fun _ _ => trivial, fun _ _ => trivial⟩, ?_, fun _ _ => trivial⟩
+      · intro i hi
+        have hi' : i < 3 := hi
+        have : i = 0 ∨ i = 1 ∨ i = 2 := by omega
+        rcases this with rfl | rfl | rfl <;>
+          norm_num [LinProg.row, blk, exExps2, exBall, exNu, Finset.sum_range_succ]
+      · intro q hq
+        have : q = [2, 1] := by simpa [blk, exExps2, exBall] using hq
+        subst this
+        norm_num [socMem, exNu]
+    · refine ⟨⟨?_, fun _ _ => trivial, fun _ _ => trivial⟩, ?_, fun _ _ => trivial⟩
+      · intro i hi
+        have hi' : i < 1 := hi
+        have : i = 0 := by omega
+        subst this
+        norm_num [LinProg.row, blk, exExps2, exLow, exNu, Finset.sum_range_succ]
+      · intro q hq; simp [blk, exExps2, exLow] at hq
+  · intro k hk
+    have : k = 0 ∨ k = 1 := by simp [exExps2] at hk; omega
+    rcases this with rfl | rfl <;> norm_num [evProb, idx, exExps2, exPi]
+
+
+/-! #### `dro_sound`: two scenarios, one event (the whole sample space), one random component,
+support `0 ≤ z ≤ 2`, integrand `f_s(z) = z - 1` -/
+
+def exZ : ℕ → (ℕ → ℚ) → Prop := fun _ z => 0 ≤ z 0 ∧ z 0 ≤ 2
+/-- scenario 0: `z ∈ {0, 1}` with weights `1/2, 1/2`; scenario 1: `z = 1` -/
+def exW : ℕ → ℕ → ℚ := fun s i => if s = 0 then 1/2 else (if i = 0 then 1 else 0)
+def exPt : ℕ → ℕ → ℕ → ℚ := fun s i _ => if s = 0 then (i : ℚ) else 1
+def exEs : ℕ → ((ℕ → ℚ) → ℚ) → ℚ := fun s => finExp 2 (exW s) (exPt s)
+def exF : ℕ → (ℕ → ℚ) → ℚ := fun _ z => z 0 - 1
+def exP : ℕ → ℚ := fun _ => 1/2
+
+/-- the finitely supported conditional distributions are conditional expectation operators -/
+lemma exEs_condExp : ∀ s < 2, CondExp (exZ s) (exEs s) := by
+  intro s hs
+  have hs' : s = 0 ∨ s = 1 := by omega
+  apply finExp_isCondExp
+  · intro i hi
+    have hi' : i = 0 ∨ i = 1 := by omega
+    rcases hs' with rfl | rfl <;> rcases hi' with rfl | rfl <;> norm_num [exW]
+  · rcases hs' with rfl | rfl <;> norm_num [exW, Finset.sum_range_succ]
+  · intro i hi
+    have hi' : i = 0 ∨ i = 1 := by omega
+    rcases hs' with rfl | rfl <;> rcases hi' with rfl | rfl <;> norm_num [exZ, exPt]
+
+/-- with `α = (-1, -1)`, `β = 1`: (H2) holds with equality, (H1) reads `-1 + 3/4 ≤ 0`, and
+`dro_sound` yields `Σ_s p_s E_s[z - 1] = -1/4 ≤ 0` -/
+example : ∑ s ∈ range 2, exP s * exEs s (exF s) ≤ 0 := by
+  apply dro_sound 2 1 1 exZ exEs exEs_condExp exF (fun _ => -1) (fun _ _ => 1) (fun _ _ => True)
+    exP (by intro s _; norm_num [exP])
+  · intro s _ z _
+    simp [exF, Finset.sum_range_succ]
+  · norm_num [exP, exEs, finExp, exW, exPt, Finset.sum_range_succ]
+
+/-- the value the theorem bounds, computed directly -/
+example : ∑ s ∈ range 2, exP s * exEs s (exF s) = -1/4 := by
+  norm_num [exP, exEs, exF, finExp, exW, exPt, Finset.sum_range_succ]
+
+
+/-! #### `dro_sound_compiled`: one scenario (`p_0 = 1`), one expectation set `E(z) == 2` -/
+
+/-- probability program of `p ≥ 0, p_0 = 1` (rows `-p_0 ≤ 0`, `p_0 = 1`) -/
+def exPro1 : ConeProg ℚ :=
+  { lp := { nr := 2, nc := 1
+            a := fun i _ => if i = 0 then -1 else 1
+            b := fun i => if i = 0 then 0 else 1
+            eq := fun i => decide (i = 1)
+            ub := fun _ => none, lb := fun _ => none, c := fun _ => 1 }
+    st := fun _ _ => true, qmat := [], xmat := [] }
+
+/-- expectation program of `E(z) == 2` -/
+def exMean : ConeProg ℚ :=
+  { lp := { nr := 1, nc := 1, a := fun _ _ => 1, b := fun _ => 2, eq := fun _ => true
+            ub := fun _ => none, lb := fun _ => none, c := fun _ => 1 }
+    st := fun _ _ => true, qmat := [], xmat := [] }
+
+def exExps1 : List (ConeProg ℚ × List ℕ) := [(exMean, [0])]
+
+/-- the mixed support: columns `[p_0 | μ]`, rows `-p_0 ≤ 0`, `p_0 = 1`, `μ - 2 p_0 = 0` -/
+def exMix : ConeProg ℚ := mixSupport exPro1 exExps1
+
+/-- the first-stage row `α·p_0 + β·μ ≤ 0` with `α` = decision column 0, `β` = decision column 1 -/
+def exRow : RoRows ℚ := droRow exPro1 exExps1 1 1 2 (fun _ => 0) (fun _ _ => 1)
+
+/-- `α = -2`, `β = 1`, multipliers `(0, 0, -1)` -/
+def exV : ℕ → ℚ := fun c => if c = 0 then -2 else if c = 1 then 1 else if c = 4 then -1 else 0
+
+lemma exMix_a20 : exMix.lp.a 2 0 = -2 := by
+  have h := mixA_blk exPro1 exExps1 0 (by decide) 0 (by decide) 0
+  have e : rowOff exPro1 exExps1 0 + 0 = 2 := by decide
+  rw [e] at h
+  show mixA exPro1 exExps1 2 0 = -2
+  rw [h]
+  norm_num [exPro1, exExps1, exMean, idx, blk]
+
+lemma exS_nc : exMix.coneDual.lp.nc = 3 := by decide
+lemma exS_nr : exMix.coneDual.lp.nr = 2 := by decide
+lemma exS_c0 : exMix.coneDual.lp.c 0 = 0 := by decide
+lemma exS_c1 : exMix.coneDual.lp.c 1 = -1 := by decide
+lemma exS_c2 : exMix.coneDual.lp.c 2 = 0 := by decide
+lemma exS_a00 : exMix.coneDual.lp.a 0 0 = -1 := by decide
+lemma exS_a01 : exMix.coneDual.lp.a 0 1 = 1 := by decide
+lemma exS_a02 : exMix.coneDual.lp.a 0 2 = -2 := exMix_a20
+lemma exS_a10 : exMix.coneDual.lp.a 1 0 = 0 := by decide
+lemma exS_a11 : exMix.coneDual.lp.a 1 1 = 0 := by decide
+lemma exS_a12 : exMix.coneDual.lp.a 1 2 = 1 := by decide
+lemma exS_b0 : exMix.coneDual.lp.b 0 = 1 := by decide
+lemma exS_b1 : exMix.coneDual.lp.b 1 = 1 := by decide
+lemma exS_eq0 : exMix.coneDual.lp.eq 0 = true := by decide
+lemma exS_eq1 : exMix.coneDual.lp.eq 1 = true := by decide
+lemma exS_ub0 : exMix.coneDual.lp.ub 0 = some 0 := by decide
+lemma exS_ub1 : exMix.coneDual.lp.ub 1 = none := by decide
+lemma exS_ub2 : exMix.coneDual.lp.ub 2 = none := by decide
+lemma exS_lb : ∀ i, exMix.coneDual.lp.lb i = none := by intro i; rfl
+lemma exS_q : exMix.coneDual.qmat = [] := by decide
+lemma exS_x : exMix.coneDual.xmat = [] := by decide
+lemma exNum : exRow.numRand exMix.coneDual = 2 := by decide
+lemma exRl00 : ∀ d, exRow.Rl 0 0 d = if d = 0 then 1 else 0 := by
+  intro d
+  have : droCol exPro1 exExps1 1 1 (fun _ => 0) (fun _ _ => 1) 0 = some 0 := by decide
+  show (if droCol exPro1 exExps1 1 1 (fun _ => 0) (fun _ _ => 1) 0 = some d then (1:ℚ) else 0) = _
+  rw [this]
+  by_cases h : d = 0
+  · subst h; simp
+  · have : ¬ (some 0 = some d) := fun hh => h (Option.some.inj hh).symm
+    simp [h, this]
+lemma exRl01 : ∀ d, exRow.Rl 0 1 d = if d = 1 then 1 else 0 := by
+  intro d
+  have : droCol exPro1 exExps1 1 1 (fun _ => 0) (fun _ _ => 1) 1 = some 1 := by decide
+  show (if droCol exPro1 exExps1 1 1 (fun _ => 0) (fun _ _ => 1) 1 = some d then (1:ℚ) else 0) = _
+  rw [this]
+  by_cases h : d = 1
+  · subst h; simp
+  · have : ¬ (some 1 = some d) := fun hh => h (Option.some.inj hh).symm
+    simp [h, this]
+
+/-- the compiled first-stage row (`-Y_1 ≤ 0`, `α - Y_0 + Y_1 - 2Y_2 = 0`, `β + Y_2 = 0`, `Y_0 ≤ 0`)
+is feasible at `exV` -/
+lemma ex_feas : (exRow.leToRc exMix.coneDual).prog.Feas (fun _ _ _ => False) exV := by
+  have hnr : (exRow.leToRc exMix.coneDual).prog.lp.nr = 3 := by
+    rw [leToRc_nr, exNum, exS_nr]; rfl
+  have hnc : (exRow.leToRc exMix.coneDual).prog.lp.nc = 5 := by
+    rw [leToRc_nc, exS_nc]; rfl
+  refine ⟨⟨?_, ?_, ?_⟩, ?_, ?_⟩
+  · intro i hi
+    rw [hnr] at hi
+    obtain rfl | rfl | rfl : i = 0 ∨ i = 1 ∨ i = 2 := by omega
+    · have h := leToRc_row1 exRow exMix.coneDual 0 (by decide) exV
+      rw [h, leToRc_b1 _ _ 0 (by decide), leToRc_eq1 _ _ 0 (by decide), exS_nc]
+      simp [Finset.sum_range_succ, exS_c0, exS_c1, exS_c2, exRow, droRow, exV, ycol, exS_nc]
+    · have h := leToRc_row2 exRow exMix.coneDual 0 (by decide) 0 (by decide) exV
+      have hb := leToRc_b2 exRow exMix.coneDual 0 (by decide) 0 (by decide)
+      have he := leToRc_eq2 exRow exMix.coneDual 0 (by decide) 0 (by decide)
+      rw [exNum] at h hb he
+      have e1 : exRow.m + (0 * 2 + 0) = 1 := rfl
+      rw [e1] at h hb he
+      rw [h, hb, he, exS_eq0, exS_nc]
+      have hnd : exRow.nd = 2 := rfl
+      have hrc : exRow.Rc 0 0 = 0 := rfl
+      rw [hnd, hrc]
+      simp [Finset.sum_range_succ, exRl00, exS_a00, exS_a01, exS_a02, exS_b0, exV, ycol, exS_nc, hnd]
+    · have h := leToRc_row2 exRow exMix.coneDual 0 (by decide) 1 (by decide) exV
+      have hb := leToRc_b2 exRow exMix.coneDual 0 (by decide) 1 (by decide)
+      have he := leToRc_eq2 exRow exMix.coneDual 0 (by decide) 1 (by decide)
+      rw [exNum] at h hb he
+      have e1 : exRow.m + (0 * 2 + 1) = 2 := rfl
+      rw [e1] at h hb he
+      rw [h, hb, he, exS_eq1, exS_nc]
+      have hnd : exRow.nd = 2 := rfl
+      have hrc : exRow.Rc 0 1 = 0 := rfl
+      rw [hnd, hrc]
+      simp [Finset.sum_range_succ, exRl01, exS_a10, exS_a11, exS_a12, exS_b1, exV, ycol, exS_nc, hnd]
+  · intro j hj
+    rw [hnc] at hj
+    obtain rfl | rfl | rfl | rfl | rfl : j = 0 ∨ j = 1 ∨ j = 2 ∨ j = 3 ∨ j = 4 := by omega
+    · simp [leToRc, LinProg.leUb, exRow, droRow]
+    · simp [leToRc, LinProg.leUb, exRow, droRow]
+    · simp [leToRc, LinProg.leUb, exRow, droRow, exS_nc, exS_ub0, exV]
+    · simp [leToRc, LinProg.leUb, exRow, droRow, exS_nc, exS_ub1, exV]
+    · simp [leToRc, LinProg.leUb, exRow, droRow, exS_nc, exS_ub2, exV]
+  · intro j hj
+    simp [leToRc, LinProg.geLb, exS_lb]
+  · intro q hq
+    simp [leToRc, exS_q] at hq
+  · intro e he
+    simp [leToRc, exS_x] at he
+
+lemma exPro1_hst : ∀ i j, exPro1.lp.a i j ≠ 0 → exPro1.st i j = true := fun _ _ _ => rfl
+lemma exPro1_hqp : ∀ q ∈ exPro1.qmat, ∀ j ∈ q, j < exPro1.lp.nc := by
+  intro q hq; simp [exPro1] at hq
+lemma exPro1_hxl : ∀ e ∈ exPro1.xmat, e.length = 3 := by intro e he; simp [exPro1] at he
+lemma exPro1_hxp : ∀ e ∈ exPro1.xmat, ∀ j ∈ e, j < exPro1.lp.nc := by
+  intro e he; simp [exPro1] at he
+lemma exExps1_hqe : ∀ k < exExps1.length, ∀ q ∈ (blk exExps1 k).qmat, ∀ j ∈ q,
+    j < (blk exExps1 k).lp.nc := by
+  intro k hk q hq
+  have : k = 0 := by simp [exExps1] at hk; omega
+  subst this
+  simp [blk, exExps1, exMean] at hq
+lemma exExps1_hidx : ∀ k < exExps1.length, ∀ s ∈ idx exExps1 k, s < exPro1.lp.nc := by
+  intro k hk s hs
+  have : k = 0 := by simp [exExps1] at hk; omega
+  subst this
+  have : s = 0 := by simpa [idx, exExps1] using hs
+  subst this
+  decide
+
+/-- `dro_sound_compiled` on the instance: at every admissible `(π, ν)` the first-stage inequality
+`-2·π_0 + 1·(t_0·ν_{0,0}) ≤ 0` holds (with equality at the only admissible point `π_0 = 1`,
+`ν_{0,0} = 2`: the multipliers `α = -2`, `β = 1` are tight) -/
+example (π : ℕ → ℚ) (ν : ℕ → ℕ → ℚ) (hπ : exPro1.Feas (fun _ _ _ => False) π)
+    (hν : ∀ k < exExps1.length, (blk exExps1 k).Feas (fun _ _ _ => True) (ν k))
+    (ht : ∀ k < exExps1.length, 0 ≤ evProb exExps1 k π) :
+    -2 * π 0 + 1 * (evProb exExps1 0 π * ν 0 0) ≤ 0 := by
+  have h := dro_sound_compiled exPro1 exExps1 (fun _ _ _ => False) (fun _ _ _ _ _ _ h _ => h.elim)
+    exPro1_hst exPro1_hqp exPro1_hxl exPro1_hxp exExps1_hqe exExps1_hidx (by decide)
+    1 1 2 (fun _ => 0) (fun _ _ => 1) (by decide)
+    (by intro k hk; have : k = 0 := by simp [exExps1] at hk; omega
+        subst this; decide)
+    (by intro s _; decide) (by intro k _ j _; decide) exV ex_feas π ν hπ hν ht
+  have hl : exExps1.length = 1 := rfl
+  rw [hl] at h
+  simpa [Finset.sum_range_succ, exV] using h
+
+/-- the admissible point of the instance: `π_0 = 1`, `ν_{0,0} = 2` -/
+example : exPro1.Feas (fun _ _ _ => False) (fun _ => 1) ∧
+    (blk exExps1 0).Feas (fun _ _ _ => True) (fun _ => 2) := by
+  refine ⟨⟨⟨?_, fun _ _ => trivial, fun _ _ => trivial⟩, ?_, ?_⟩,
+    ⟨⟨?_, fun _ _ => trivial, fun _ _ => trivial⟩, ?_, fun _ _ => trivial⟩⟩
+  · intro i hi
+    have hi' : i < 2 := hi
+    have : i = 0 ∨ i = 1 := by omega
+    rcases this with rfl | rfl <;> norm_num [LinProg.row, exPro1, Finset.sum_range_succ]
+  · intro q hq; simp [exPro1] at hq
+  · intro e he; simp [exPro1] at he
+  · intro i hi
+    have hi' : i < 1 := hi
+    have : i = 0 := by omega
+    subst this
+    norm_num [LinProg.row, blk, exExps1, exMean, Finset.sum_range_succ]
+  · intro q hq; simp [blk, exExps1, exMean] at hq
+
+/-- `dro_sound_end_to_end` on the instance: support `Z = {z_0 = 2}`, the point mass at `2` as
+conditional distribution, integrand `f(z) = z_0 - 2` (scenario row `z_0 - 2 ≤ α + β z_0` holds
+with `α = -2`, `β = 1`); the chain compiled row → (H1) → expected value gives `E[f] ≤ 0` -/
+example : ∑ s ∈ range 1, (fun _ => (1:ℚ)) s *
+    (fun _ => finExp 1 (fun _ => (1:ℚ)) (fun _ _ => (2:ℚ))) s ((fun _ z => z 0 - 2) s) ≤ 0 := by
+  apply dro_sound_end_to_end exPro1 exExps1 (fun _ _ _ => False) (fun _ _ _ _ _ _ h _ => h.elim)
+    exPro1_hst exPro1_hqp exPro1_hxl exPro1_hxp exExps1_hqe exExps1_hidx (by decide)
+    1 1 2 (fun _ => 0) (fun _ _ => 1) (by decide)
+    (by intro k hk; have : k = 0 := by simp [exExps1] at hk; omega
+        subst this; decide)
+    (by intro s _; decide) (by intro k _ j _; decide) exV ex_feas (fun _ => 1)
+    (Z := fun _ z => z 0 = 2) (ν := fun _ _ => 2)
+  · -- π feasible for the probability program
+    refine ⟨⟨?_, fun _ _ => trivial, fun _ _ => trivial⟩, ?_, ?_⟩
+    · intro i hi
+      have hi' : i < 2 := hi
+      have : i = 0 ∨ i = 1 := by omega
+      rcases this with rfl | rfl <;> norm_num [LinProg.row, exPro1, Finset.sum_range_succ]
+    · intro q hq; simp [exPro1] at hq
+    · intro e he; simp [exPro1] at he
+  · intro s _; norm_num
+  · intro s _
+    exact finExp_isCondExp _ 1 _ _ (by intro i _; norm_num) (by simp) (by intro i _; rfl)
+  · intro k hk
+    have : k = 0 := by simp [exExps1] at hk; omega
+    subst this
+    refine ⟨⟨?_, fun _ _ => trivial, fun _ _ => trivial⟩, ?_, fun _ _ => trivial⟩
+    · intro i hi
+      have hi' : i < 1 := hi
+      have : i = 0 := by omega
+      subst this
+      norm_num [LinProg.row, blk, exExps1, exMean, Finset.sum_range_succ]
+    · intro q hq; simp [blk, exExps1, exMean] at hq
+  · intro k hk
+    have : k = 0 := by simp [exExps1] at hk; omega
+    subst this
+    norm_num [evProb, idx, exExps1]
+  · intro k hk j hj
+    have : k = 0 := by simp [exExps1] at hk; omega
+    subst this
+    have : j = 0 := by omega
+    subst this
+    norm_num [evProb, idx, exExps1, finExp, Finset.sum_range_succ]
+  · intro s hs z hz
+    have : s = 0 := by omega
+    subst this
+    have hl : exExps1.length = 1 := rfl
+    rw [hl]
+    simp [Finset.sum_range_succ, exV, idx, exExps1]
+
+
 end RsomeV.C03
